@@ -103,6 +103,11 @@ def gen_cases(tier, rng):
                 fl = rng.choice(["unsfR", "unsfR", "unsfr", "unscfR", "unsfR"])
                 gens.append("gen ver=sk seed=%d opts=%s nodes= shapes=Shp:0:%d:%d:%s:%d" % (
                     rng.randint(1, 10 ** 6), rng.choice(opts_for(False, True)), nv, rng.randint(0, 6), fl, rng.choice([1, 2, 3])))
+        if ver == "sk":                                      # more bones than one SE partition may hold (80): the split path
+            for _ in range(24 if full else 4):
+                gens.append("gen ver=sk seed=%d opts=%s nodes= shapes=Shp:0:%d:%d:%s:%d" % (
+                    rng.randint(1, 10 ** 6), rng.choice(["01111", "00000", "01000"]), rng.randint(120, 260), rng.randint(80, 200),
+                    rng.choice(["uns", "unsc", "uns"]), rng.choice([81, 85, 100, 130, 200])))
         for pool in NAME_POOLS:                              # sibling name clashes
             shapes = ";".join(gen_shape(rng, ver, n, 0, rng.choice(["un", "unc", "uns"])) for n in pool)
             gens.append("gen ver=%s seed=%d opts=01111 nodes= shapes=%s" % (ver, rng.randint(1, 10 ** 6), shapes))
@@ -288,6 +293,16 @@ def partition_failures(s):
         if len(set(vm)) != len(vm):
             bad.append("partition %d: vertexMap has duplicates" % k)
         got += true
+        # a partition names every bone that a vertex of its triangles is weighted to (the game looks the bones of a
+        # partition's vertices up in the partition's own bone list)
+        if p.get("bones") and s.get("weights"):
+            pb = set(p["bones"])
+            for v in used:
+                if v < len(s["weights"]):
+                    lack = sorted(b for b, w in s["weights"][v] if b2f(w) > 0.0 and b not in pb)
+                    if lack:
+                        bad.append("partition %d: vertex %d is weighted to bone(s) %s which the partition's bone list lacks" % (k, v, lack[:4]))
+                        break
     if sorted(got) != want:
         bad.append("partition triangles are not the shape's triangles exactly once")
     return bad
